@@ -780,6 +780,17 @@ func (f *frame) run() error {
 			done, err := f.step(ins, b, in)
 			if err != nil {
 				if u, ok := err.(errUnsupported); ok {
+					if f.c != nil && !f.pure && !f.bound && !f.reach.IsTrue() && f.e.isSpecFunc(fn) == false {
+						// a construct outside the subset on a path that may be infeasible: instead of giving up
+						// the function, the path must be proved unreachable (obligation), and is cut here
+						msg := u.msg
+						if len(msg) > 90 {
+							msg = msg[:90]
+						}
+						f.oblige("reach", "unmodelled: "+msg, TFalse, ins.Pos())
+						f.reach = TFalse
+						break
+					}
 					return unsupported("%s: %s: %s [%s]", f.e.Fset.Position(f.curPos), fn.Name(), u.msg, ins)
 				}
 				return err
